@@ -15,6 +15,7 @@ import (
 	"os"
 	"strconv"
 	"strings"
+	"sync"
 	"sync/atomic"
 
 	cloudstorage "cloud.google.com/go/storage"
@@ -480,6 +481,7 @@ func (g *GcsEmu) handleGcsCopy(ctx context.Context, baseUrl HttpBaseUrl, w http.
 }
 
 type uploadData struct {
+	mu     sync.Mutex // serializes the requests of one resumable session
 	Object storage.Object
 	Conds  cloudstorage.Conditions
 	data   []byte
@@ -598,6 +600,9 @@ func (g *GcsEmu) handleGcsNewObjectResume(ctx context.Context, baseUrl HttpBaseU
 	}
 
 	u := found.(*uploadData)
+	// Two clients may continue the same session at the same time (e.g. a retry racing the original request).
+	u.mu.Lock()
+	defer u.mu.Unlock()
 
 	contents, err := io.ReadAll(r.Body)
 	if err != nil {
